@@ -33,7 +33,8 @@
    Everything else the model knows (error texts, state bits after a close, which queue holds an event) is prediction.
 
    Event records (props/X05.py):
-     [k |-> "cfg", kind |-> "plain"|"http", mode |-> "start"|"command", same, react, hosthdr, auth]
+     [k |-> "cfg", kind |-> "plain"|"http", mode |-> "start"|"start_half"|"command", same, react, hosthdr, auth]
+        (start: the tunnel connection is open at Start; start_half: it is open but the peer's EOF has been read already)
      [k |-> "in", what |-> "start" | "cdata"(id, op) | "cclose" | "open_done"(ok) | "hook_done"
                          | "tdata"(hb, pay, hs) | "tclose"(echo)]        environment -> tunnel layer
         tdata: hb = the segment holds bytes of the response head, pay = bytes after the head, hs = what the peer's
@@ -86,8 +87,8 @@ In(m, ev) ==
       m0 == [m EXCEPT !.bad = q] IN
   IF q # <<>> THEN m0 ELSE
   CASE ev.what = "start" ->
-         LET m1 == [m0 EXCEPT !.pend = Append(@, <<"start", 0, IF m.cfg.mode = "start" /\ m.cfg.kind = "http" THEN "buffered" ELSE "">>)] IN
-         IF m.cfg.mode = "start"
+         LET m1 == [m0 EXCEPT !.pend = Append(@, <<"start", 0, IF m.cfg.mode # "command" /\ m.cfg.kind = "http" THEN "buffered" ELSE "">>)] IN
+         IF m.cfg.mode # "command"
          THEN (IF m.cfg.kind = "http" THEN [m1 EXCEPT !.hs = "pre", !.hk = "due"] ELSE [m1 EXCEPT !.hs = "ok"])
          ELSE m1
     [] ev.what = "cdata" ->
